@@ -1336,5 +1336,31 @@ def _plain_h(v):
 
 
 # -------------------------------------------------------------------------------------------------
-# Breaks tried (scratch worktree, quick tier) -- see bottom of file after validation
+# Validation record (scratch worktree /tmp/scratch-ir = HEAD + proposed fixes, quick tier, seed 0; worktree removed afterwards)
+#
+# Genuine defect found on the UNCHANGED tree (phase literal-corners every run; phase literal occasionally):
+#   literal/accepted-literal-cannot-be-encoded
+#       hl.literal([{'k': hl.Struct()}, {'j': hl.Struct()}])  -> accepted with dtype array<struct{j: struct{}, k: struct{}}>, rendering the
+#       literal raises KeyError 'j'.  _impute_type tests `if not unified_value_type:` / `if not unified_type:`; tstruct() and
+#       ttuple() are falsy (len 0), so dict<str, struct{}> is imputed as a struct (and {hl.Struct()} is rejected as "heterogeneous").
+#       fix: /verif/proposed_fixes/C36-impute-type-treats-fieldless-struct-or-tuple-type-as-no-type.diff ; with it: HELD, seeds 0..4.
+#
+# Not violations, but observed and recorded in the evidence (facility `compute_type(..., deep_typecheck=True)` is never used by the
+# front end and is itself broken, which is why M2 walks the IR with child_context instead):
+#   * StreamAgg._compute_type hands `_env_bind(env, self.bindings(1))` (only agg_capability) down as agg env: every aggregated Ref is
+#     "not found"; * MakeArray._compute_type indexes args[0] of an empty array; * the untyped inner TopLevelReference of t.f caches the
+#     first row type it is checked against.  * HailType.typecheck descends into missing compound values ('NoneType' is not iterable).
+#
+# Breaks tried on top of the fixed tree, one at a time:
+#   B1  _bin_op_numeric declares int32 for int32 * float64                       -> CAUGHT  internal-type-assertion/assign_type/ApplyBinaryPrimOp
+#   B2a Table.__init__ keeps only the first key field in the wrapper (stale key)  -> CAUGHT  table/wrapper-key-type-differs-from-ir (+ model)
+#   B2b TableKeyBy._compute_type keeps the child's key for key_by()               -> CAUGHT  table/key_by_none-key-schema-differs-from-meaning
+#   B3  (own) StructExpression.annotate declares an overwritten field moved last  -> CAUGHT  internal-type-assertion/assign_type/InsertFields
+#   B4  (own, subtle) impute_type gives float32 for Python floats (value still passes the per-level check)
+#                                                                                 -> CAUGHT  literal/encoding-does-not-decode-to-value,
+#                                                                                            literal/primitive-literal-node-does-not-carry-value
+#   B6  (own, subtle) TableLeftJoinRightDistinct types other[t.k] with the right table's whole row: wrapper, IR and model all agree
+#       after cleanup; first version caught it only through the triaged deep typecheck; the Projected/SelectedTopLevelReference check
+#       in Walker was added because of it                                         -> CAUGHT  ref/field-type-differs-from-relational-binder
+#   B7  (own) MatrixEntriesTable forgets the column key                            -> CAUGHT  table/MatrixTable.entries-key-schema-differs-from-meaning
 # -------------------------------------------------------------------------------------------------
